@@ -26,6 +26,7 @@ class GP:
             else:
                 rules.append((c, h, b))
         self.minimize = list(g.minimize)
+        self.edges = list(getattr(g, "edges", []))  # acyclicity constraints (#edge): act like integrity constraints
         self.sym = {a: str(s) for a, s in g.symtab.items()}
         self.sig = {a: (s.name, len(s.arguments)) for a, s in g.symtab.items()}
         self.vis = {}
@@ -38,6 +39,8 @@ class GP:
             atoms.update(abs(l) for l in blits(b))
         for _, lits in self.minimize:
             atoms.update(abs(l) for l, _ in lits)
+        for _, _, cond in self.edges:
+            atoms.update(abs(l) for l in cond)
         nxt = max(atoms, default=0) + 1
         if show_terms:
             by_t = {}
@@ -87,6 +90,8 @@ class GP:
                 rel.update(h)
         for _, lits in self.minimize:
             rel.update(abs(l) for l, _ in lits)
+        for _, _, cond in self.edges:
+            rel.update(abs(l) for l in cond)
         for comp in nx.strongly_connected_components(dep):
             if len(comp) == 1:
                 (a,) = comp
@@ -183,4 +188,5 @@ class GP:
             "hidden": len(self.hidden),
             "sliced_away": self.sliced,
             "minimize_lits": sum(len(l) for _, l in self.minimize),
+            "acyc_edges": len(self.edges),
         }
